@@ -278,6 +278,7 @@ EXECUTION_ENV_VARS = frozenset(
         "DYLD_INSERT_LIBRARIES", "DYLD_LIBRARY_PATH", "DYLD_FRAMEWORK_PATH",
         # interpreters
         "PYTHONPATH", "PYTHONSTARTUP", "PYTHONHOME", "PYTHONINSPECT",
+        "PYTHONPYCACHEPREFIX", "PYTHONUSERBASE", "PYTHONPLATLIBDIR", "PYTHONBREAKPOINT",
         "PERL5LIB", "PERL5OPT", "PERLLIB", "RUBYLIB", "RUBYOPT",
         "NODE_OPTIONS", "NODE_PATH", "JAVA_TOOL_OPTIONS", "_JAVA_OPTIONS",
         # helpers that tools start
